@@ -563,3 +563,72 @@ func (i *interpreter) methodByName(t types.Type, name string) *ssa.Function {
 	}
 	return nil
 }
+
+// ---------------------------------------------------------------- OS stubs
+
+// hostDir is the engine's stand-in for an open directory (*os.File).
+type hostDir struct {
+	names []value
+	pos   int
+}
+
+// fsCall invokes the harness's file-system model (package verifharness/fsmodel)
+// on the per-path FS value installed by nd.SetFS; without one the file system
+// is empty.
+func (i *interpreter) fsCall(fn string, args ...value) (value, bool) {
+	fs, ok := i.px.userdata["fs"]
+	if !ok {
+		return nil, false
+	}
+	pkg := i.prog.ImportedPackage("verifharness/fsmodel")
+	if pkg == nil {
+		return nil, false
+	}
+	f := pkg.Func(fn)
+	return call(i, nil, token.NoPos, f, append([]value{fs}, args...)), true
+}
+
+func init() {
+	for k, v := range map[string]externalFn{
+		"os.Lstat": func(fr *frame, a []value) value {
+			if r, ok := fr.i.fsCall("Exists", a[0]); ok && fr.i.decide(r) {
+				return tuple{iface{}, nilErr()}
+			}
+			return tuple{iface{}, fr.i.mkError("lstat: no such file or directory")}
+		},
+		"os.Open": func(fr *frame, a []value) value {
+			if r, ok := fr.i.fsCall("ReadDir", a[0]); ok {
+				t := r.(tuple)
+				if fr.i.decide(t[1]) {
+					var cell value = &hostDir{names: append([]value(nil), t[0].([]value)...)}
+					return tuple{&cell, nilErr()}
+				}
+			}
+			return tuple{(*value)(nil), fr.i.mkError("open: no such file or directory")}
+		},
+		"(*os.File).Readdirnames": func(fr *frame, a []value) value {
+			d := (*a[0].(*value)).(*hostDir)
+			n := fr.i.conc(a[1]).(int)
+			if d.pos >= len(d.names) {
+				if n <= 0 {
+					return tuple{[]value{}, nilErr()}
+				}
+				eof := fr.i.prog.ImportedPackage("io").Var("EOF")
+				return tuple{[]value(nil), *fr.i.globals[eof]}
+			}
+			end := len(d.names)
+			if n > 0 && d.pos+n < end {
+				end = d.pos + n
+			}
+			out := append([]value(nil), d.names[d.pos:end]...)
+			d.pos = end
+			return tuple{out, nilErr()}
+		},
+		"(*os.File).Close": func(fr *frame, a []value) value { return nilErr() },
+		"os/user.Lookup": func(fr *frame, a []value) value {
+			return tuple{(*value)(nil), fr.i.mkError("user: unknown user")}
+		},
+	} {
+		externals[k] = v
+	}
+}
